@@ -7,14 +7,55 @@ Import ListNotations.
 Local Open Scope Z_scope.
 
 (** the five filters of the case language *)
-Inductive fkind := FAll | FId (id : string) | FName (name : string) | FType (type : string) | FIds (ids : list string).
-Definition apply_filter (k : fkind) : tree -> bool :=
+Inductive fkind := FAll | FId (id : string) | FName (name : string) | FType (type : string) | FIds (ids : list string)
+                 | FTypeLoose (type : string) | FMeta (sec_id : string) | FHasSrc (src_id : string).
+(** the filter as the code evaluates it ([roots] = the file's sections, needed by MetadataFilter) *)
+Definition apply_filter (roots : list tree) (k : fkind) : tree -> bool :=
   match k with
   | FAll => AcceptAll
   | FId id => IdFilter id
   | FName n => NameFilter n
   | FType t => TypeFilter t
   | FIds ids => IdsFilter ids
+  | FTypeLoose t => TypeFilterLoose t
+  | FMeta sec_id => SourceMetadataFilter roots sec_id
+  | FHasSrc src_id => SourceSourceFilter src_id
+  end.
+(** the filter as the specification reads it (pointwise link tests) *)
+Definition spec_filter (k : fkind) : tree -> bool :=
+  match k with
+  | FMeta sec_id => spec_meta_filter sec_id
+  | FHasSrc src_id => has_kid src_id
+  | k => apply_filter [] k
+  end.
+
+(** filters over data arrays / tags / multi-tags *)
+Inductive ekind := EAll | EId (id : string) | EMeta (sec_id : string) | ESrc (src_id : string).
+Definition apply_efilter (roots : list tree) (k : ekind) : ent -> bool :=
+  match k with
+  | EAll => fun _ => true
+  | EId id => EntIdFilter id
+  | EMeta sec_id => EntMetadataFilter roots sec_id
+  | ESrc src_id => SourceFilter src_id
+  end.
+Definition spec_efilter (k : ekind) : ent -> bool :=
+  match k with
+  | EAll => fun _ => true
+  | EId id => fun e => String.eqb (e_id e) id
+  | EMeta sec_id => fun e => opt_is (e_meta e) sec_id
+  | ESrc src_id => fun e => existsb (String.eqb src_id) (e_srcs e)
+  end.
+Definition apply_bfilter (roots : list tree) (k : ekind) : block -> bool :=
+  match k with
+  | EId id => BlockIdFilter id
+  | EMeta sec_id => BlockMetadataFilter roots sec_id
+  | _ => fun _ => true
+  end.
+Definition spec_bfilter (k : ekind) : block -> bool :=
+  match k with
+  | EId id => fun b => String.eqb (b_id b) id
+  | EMeta sec_id => fun b => opt_is (b_meta b) sec_id
+  | _ => fun _ => true
   end.
 
 Definition empty_file : file := mkFile [] [].
